@@ -61,8 +61,9 @@ class ViewSection(Micheline, prim='view', args_len=4):
             raise MichelsonRuntimeError('view', 'Expected view name as first argument', view_name)
         name = view_name.get_string()
         if len(name) >= 32:
-            # TODO: also check for denied symbols
             raise MichelsonRuntimeError('view', f'Too long view name {view_name}')
+        if not all(c.isascii() and (c.isalnum() or c in '_.%@') for c in name):
+            raise MichelsonRuntimeError('view', f'Forbidden character in view name {name!r}')
 
         # NOTE: Check for opcodes forbidden in views
         cls.check_code(args[3], lambda_=False)
